@@ -68,6 +68,28 @@ def replacement_histories():
     return H
 
 
+def approx_histories():
+    """C13, approximate modes: SolverHybrid asked with exact=False.  Containment only: no value or model that exists is excluded, a
+    satisfiable set is never reported unsatisfiable.  n = 9 exceeds the number of values of the (<= 3-bit) variables, so a shorter answer
+    claims to be complete."""
+    H = {}
+    H["approx-bounds"] = [("add", 0, [A]), ("aeval", 0, "x", 9, []), ("amax", 0, "x", False, []), ("amin", 0, "x", False, []), ("asat", 0, [])]
+    H["approx-two-bounds"] = [("add", 0, [A]), ("add", 0, ["x>=K1"]), ("asat", 0, []), ("aeval", 0, "x", 9, []), ("amin", 0, "x", False, []), ("asolution", 0, "x", 2, [])]
+    H["approx-eq"] = [("add", 0, ["x==K0"]), ("aeval", 0, "x", 9, []), ("aeval", 0, "x+1", 9, []), ("asolution", 0, "x", 0, []), ("amax", 0, "x+1", False, [])]
+    H["approx-ne"] = [("add", 0, ["x!=K2"]), ("aeval", 0, "x", 9, []), ("amax", 0, "x", False, []), ("asolution", 0, "x", 1, [])]
+    H["approx-or"] = [("add", 0, ["x==K0|x==K1"]), ("aeval", 0, "x", 9, []), ("amin", 0, "x", False, []), ("amax", 0, "x", True, [])]
+    H["approx-two-vars"] = [("add", 0, [A, "y<=K2"]), ("aeval", 0, "x+y", 9, []), ("amax", 0, "x+y", False, []), ("add", 0, ["x==y"]), ("aeval", 0, "x", 9, []), ("asat", 0, [])]
+    H["approx-signed"] = [("add", 0, ["x<=sK1"]), ("aeval", 0, "x", 9, []), ("amin", 0, "x", True, []), ("amax", 0, "x", True, []), ("amax", 0, "x", False, [])]
+    H["approx-extra"] = [("add", 0, [A]), ("aeval", 0, "x", 9, ["x!=K2"]), ("asat", 0, ["x==K1"]), ("amax", 0, "x", False, ["x>=K1"]), ("aeval", 0, "x", 9, [])]
+    H["approx-after-exact"] = [("add", 0, [A]), ("eval", 0, "x", 9, []), ("max", 0, "x", False, []), ("aeval", 0, "x", 9, []), ("add", 0, ["x!=K2"]), ("aeval", 0, "x", 9, []), ("amax", 0, "x", False, [])]
+    H["approx-tighten"] = [("add", 0, [A]), ("aeval", 0, "x+1", 9, []), ("add", 0, ["x<=K1"]), ("aeval", 0, "x+1", 9, []), ("amax", 0, "x+1", False, [])]
+    H["approx-branch"] = [("add", 0, [A]), ("aeval", 0, "x", 9, []), ("branch", 0, 1), ("add", 1, ["x>=K1"]), ("aeval", 1, "x", 9, []), ("aeval", 0, "x", 9, []), ("amin", 0, "x", False, [])]
+    H["approx-pickle-tighten"] = [("add", 0, [A]), ("aeval", 0, "x+1", 9, []), ("pickle", 0), ("add", 0, ["x<=K1"]), ("aeval", 0, "x+1", 9, []), ("amax", 0, "x+1", False, []), ("aeval", 0, "x", 9, [])]
+    H["approx-merge"] = [("branch", 0, 1), ("add", 0, [A]), ("add", 1, ["x>=K1"]), ("aeval", 0, "x", 9, []), ("merge", 0, [1], ["b", "!b"], 2), ("aeval", 2, "x", 9, []), ("asolution", 2, "x", 2, []), ("asat", 2, [])]
+    H["approx-unsat"] = [("add", 0, [A]), ("add", 0, ["x>K2"]), ("asat", 0, []), ("add", 0, ["y<=K2"]), ("asat", 0, [])]
+    return H
+
+
 def branch_histories():
     H = {}
     H["child-add"] = [("add", 0, [A]), ("branch", 0, 1), ("add", 1, ["x!=K2"]), ("eval", 1, "x", 9, []), ("eval", 0, "x", 9, []), ("sat", 0, ["x==K1"])]
@@ -207,12 +229,13 @@ PROPS = {
     # prop: (histories, classes, options)
     "C10": (truth_histories, ["Solver", "SolverComposite", "SolverReplacement", "SolverHybridExact"], {}),
     "C12": (lambda: {**composite_histories(), **{k: v for k, v in p_c11.targeted().items() if hmod(k, 5) == 0}}, ["SolverComposite"], {}),
-    "C13": (lambda: {**replacement_histories(), **{k: v for k, v in p_c11.targeted().items() if hmod(k, 4) == 0}}, ["SolverReplacement", "SolverHybridExact"], {}),
+    "C13": (lambda: {**replacement_histories(), **approx_histories(), **{k: v for k, v in p_c11.targeted().items() if hmod(k, 4) == 0}},
+            ["SolverReplacement", "SolverHybridExact", "SolverHybridApprox"], {}),
+    "C18": (lambda: {**pickle_histories(), **{k: v for k, v in approx_histories().items() if "pickle" in k}}, ALLCLS + ["SolverHybridApprox"], {}),
     "C14": (branch_histories, ALLCLS, {}),
     "C15": (merge_histories, ALLCLS, {}),
     "C16": (core_histories, ["Solver", "SolverComposite", "SolverHybridExact"], {"track": True}),
     "C17": (fault_histories, ["Solver", "SolverCacheless", "SolverComposite"], {"fault": True}),
-    "C18": (pickle_histories, ALLCLS, {}),
 }
 
 
@@ -228,6 +251,8 @@ def obligations(prop, tier):
     for name, h in hs().items():
         nv = len(p_hist.vars_of_history(h) - {"b"})
         for cls in classes:
+            if (cls == "SolverHybridApprox") != name.startswith("approx-"):
+                continue   # approximate histories run on the hybrid solver asked with exact=False, and only there
             if quick and prop in ("C14", "C15", "C18") and cls in ("SolverCacheless", "SolverHybridExact") and hmod(name + cls, 3):
                 continue
             if quick and prop == "C18" and hmod(name + cls, 2):
